@@ -108,7 +108,8 @@ func mergeConfigDict(opts *options, to, from *Config) Error {
 		}()
 	}
 
-	for k, v := range dict {
+	for _, k := range sortedKeys(dict) {
+		v := dict[k]
 		ctx := context{
 			parent: cfgSub{to},
 			field:  k,
